@@ -440,7 +440,7 @@ def s2_cases(rng, tier):
 
 def gen_cases(rng, tier):
     n_rand, n_coop, grids = {"quick": (150, 250, 1), "thorough": (30000, 40000, 20), "search": (600, 900, 2)}[tier]
-    n_exec, n_serve = {"quick": (120, 200), "thorough": (20000, 30000), "search": (400, 600)}[tier]
+    n_exec, n_serve = {"quick": (120, 200), "thorough": (8000, 15000), "search": (400, 600)}[tier]
     for _ in range(grids):
         yield from grid_cases(rng)
     for _ in range(n_exec):
